@@ -251,6 +251,14 @@ def _is_len_guard(test, name=None):
     return None
 
 
+def _len_guard_conjunct(test, L=None):
+    """name of a list whose non-emptiness is a conjunct of the guard (the given one if it is among them, else the first)"""
+    names = [x for x in (_is_len_guard(a) for a in guard_atoms(test)) if x is not None]
+    if L is not None:
+        return L if L in names else None
+    return names[0] if names else None
+
+
 class ListNet:
     """Lower bound on the net number of elements removed from a list variable along paths
     (LEN-CONSUME).  Events: L.pop(..) = +1 removed; `X, L = g(L)` with summary k (valid only when
@@ -372,7 +380,7 @@ class ListNet:
             if isinstance(lp.stmt, ast.While):
                 touches = any(isinstance(n, ast.Name) and n.id == L for n in loop_stmts(lp.stmt))
                 if touches:
-                    g = _is_len_guard(lp.stmt.test)
+                    g = _len_guard_conjunct(lp.stmt.test, L)
                     r = self.iteration_min(cfg, lp, L, mod, nonempty=(g == L))
                     if r is None or r < 0:
                         return None
@@ -412,12 +420,28 @@ class ListNet:
                 removed += r[0]
                 nonempty = r[1]
             if node.kind == "test" and isinstance(node.ast, ast.While):
-                g = _is_len_guard(node.ast.test)
+                g = _len_guard_conjunct(node.ast.test, L)
+                others_true = True
+                if g == L and len(guard_atoms(node.ast.test)) > 1:
+                    # the other conjuncts must hold on entry for the loop to be entered for sure: decided on the constants assigned
+                    # by the straight-line statements before the loop (e.g. text = "" makes len(text) == 0 true)
+                    from .sem import Mini
+                    mi = Mini(self.ctx, mod)
+                    pre = []
+                    for st_ in fn.body:
+                        if st_ is node.ast:
+                            break
+                        pre.append(st_)
+                    if node.ast in fn.body:
+                        mi.run([s_ for s_ in pre if isinstance(s_, (ast.Assign, ast.AnnAssign))])
+                        others_true = all(mi.truth(a_) is True for a_ in guard_atoms(node.ast.test) if _is_len_guard(a_) != L)
+                    else:
+                        others_true = False
                 if n in heads:
                     succ = [(s, lab) for s, lab in succ if lab != "true"]
                     nonempty = False
                 else:
-                    if g == L and nonempty:
+                    if g == L and nonempty and others_true:
                         succ = [(s, lab) for s, lab in succ if lab == "true"]
                     elif g == L:
                         pass
@@ -485,9 +509,9 @@ def _emptiness(fn, test, L):
 def _loop_len_guards(fn, loop):
     """[(L, guard is the loop test)]: `while len(L)` style guards, or - for `while True` - lists whose emptiness is tested by
     an `if` in the body whose empty side leaves the loop"""
-    L = _is_len_guard(loop.test)
-    if L is not None:
-        return [(L, True)]
+    names = [x for x in (_is_len_guard(a) for a in guard_atoms(loop.test)) if x is not None]
+    if names:
+        return [(x, True) for x in names]
     out = []
     if isinstance(loop.test, ast.Constant) and loop.test.value is True:
         for n in loop_stmts(loop):
